@@ -38,7 +38,7 @@ CLAIMED["C03"] = dict(
 CLAIMED["C04"] = dict(
     text="Per environment (all 21 environments with a mask): theorem mask = legal for every state satisfying the reachable invariant and every action "
          "(invariant proved at reset and preserved by steps), model tied to the code by replaying every transition in the extracted model; verified "
-         "legal_b evaluated on implementation states; every action of small spaces tried on the real environment (its own reaction). Maze, SlidingTilePuzzle, Snake, GraphColoring, Cleaner, Knapsack: the mask function is translated from the source on every run and the mask theorem is restated on the translated code (C04_<Env>_Source.v).",
+         "legal_b evaluated on implementation states; every action of small spaces tried on the real environment (its own reaction). Maze, SlidingTilePuzzle, Snake, GraphColoring, Cleaner, Knapsack, TSP, CVRP: the mask function is translated from the source on every run and the mask theorem is restated on the translated code (C04_<Env>_Source.v).",
     ref="DESIGN.md §5 C04", tech="Coq proof (invariant + mask_iff_legal) + extracted-model correspondence", note=_ENV_NOTE)
 CLAIMED["C05"] = dict(
     text="Per environment: theorem that an illegal action has exactly the documented effect; tied by correspondence on rollouts that inject "
@@ -54,8 +54,8 @@ CLAIMED["C08"] = dict(
     ref="DESIGN.md §5 C08", tech="Coq proof by induction over episodes + return recomputation on implementation episodes", note=_ENV_NOTE)
 CLAIMED["C09"] = dict(
     text="The Impl model of each modelled environment predicts every transition (state, reward, step type) of the real environment on all "
-         "catalogued configurations; theorems characterise the Impl model by the declarative rules. For Maze, SlidingTilePuzzle, Snake, GraphColoring, Sokoban, Cleaner and Knapsack the WHOLE step (and mask / reward functions / reset where they are deterministic) is translated from the source on every run (Gen/MazeSrc.v, SlidingTileSrc.v, SnakeSrc.v, GraphColoringSrc.v, SokobanSrc.v, CleanerSrc.v, KnapsackSrc.v) and proved equal to the hand model, so their theorems hold of the code as written (C09_<Env>_Source.v).",
-    ref="DESIGN.md §5 C09", tech="source translation of seven whole environments + extracted-model correspondence (every transition) + refinement theorems", note=_ENV_NOTE)
+         "catalogued configurations; theorems characterise the Impl model by the declarative rules. For Maze, SlidingTilePuzzle, Snake, GraphColoring, Sokoban, Cleaner and Knapsack the WHOLE step, and for TSP and CVRP the state part of the step with the observation (reward function as a parameter), (and mask / reward functions / reset where they are deterministic) is translated from the source on every run (Gen/MazeSrc.v, SlidingTileSrc.v, SnakeSrc.v, GraphColoringSrc.v, SokobanSrc.v, CleanerSrc.v, KnapsackSrc.v) and proved equal to the hand model, so their theorems hold of the code as written (C09_<Env>_Source.v).",
+    ref="DESIGN.md §5 C09", tech="source translation of nine environments + extracted-model correspondence (every transition) + refinement theorems", note=_ENV_NOTE)
 CLAIMED["C10"] = dict(
     text="Generators modelled over explicit draws; well-formedness proved for every draw; verified checkers on every reset state of the rollouts.",
     ref="DESIGN.md §5 C10", tech="Coq proof over all draws + verified checker on reset states", note=_ENV_NOTE)
